@@ -165,6 +165,20 @@ def impure_view_writes(c: Ctx, u: Unit) -> list[tuple[ast.AST, str]]:
         ds = [d for d in defs.get(nm, []) if not (isinstance(d, ast.Constant) and d.value is None)]
         return bool(ds) and all(_fresh(d) for d in ds)
 
+    inplace_fns = {'iadd', 'iconcat', 'ior', 'iand', 'isub', 'imul', 'ixor', 'setitem', 'delitem'}
+    for n in own_nodes(u.node):
+        # an in-place operator / mutator passed as a function value (reduce(operator.iadd, lists), map(list.extend, ...)): it mutates its first operand,
+        # which for reduce() without a fresh initial value is the first element of the sequence — a recorded result
+        if isinstance(n, (ast.Attribute, ast.Name)) and not (isinstance(parent(n), ast.Call) and parent(n).func is n):
+            nm = n.attr if isinstance(n, ast.Attribute) else n.id
+            recv_ok = isinstance(n, ast.Name) or U(n.value) in ('operator', 'list', 'dict', 'set', 'op')
+            if recv_ok and ((nm in inplace_fns) or (isinstance(n, ast.Attribute) and U(n.value) in ('list', 'dict', 'set') and nm in VIEW_MUTATORS)) and isinstance(getattr(n, 'ctx', None), ast.Load):
+                call = parent(n)
+                init_fresh = isinstance(call, ast.Call) and call_name(call) == 'reduce' and len(call.args) >= 3 and _fresh(call.args[2])
+                if isinstance(n, ast.Name) and not c.prog.module(u.module).imports.get(n.id, '').startswith('operator'):
+                    continue  # a local that merely happens to be called iadd / setitem
+                if not init_fresh:
+                    out.append((n, f'`{U(call if isinstance(call, ast.Call) else n)[:70]}` applies the in-place operation {nm} to elements of the results (no fresh accumulator)'))
     for n in own_nodes(u.node):
         if isinstance(n, ast.Call) and isinstance(n.func, ast.Attribute) and n.func.attr in VIEW_MUTATORS:
             r = n.func.value
@@ -258,8 +272,9 @@ def c12_3(c: Ctx) -> None:
     'exactly when that set is empty; the returned dict is that set')
 def c12_4(c: Ctx) -> None:
     u = c.unit(MOD, 'BaseEvent.event_results_filtered')
+    fn = q.comp_view(u.node)  # accumulate-in-a-loop written as the equivalent comprehension
     comps = {}
-    for n in own_nodes(u.node):
+    for n in own_nodes(fn):
         if isinstance(n, (ast.Assign, ast.AnnAssign)) and isinstance(n.value, ast.DictComp):
             tgt = n.targets[0] if isinstance(n, ast.Assign) else n.target
             if isinstance(tgt, ast.Name):
@@ -273,7 +288,7 @@ def c12_4(c: Ctx) -> None:
     src_ok = len(comp.generators) == 1 and isinstance(gen.iter, ast.Call) and call_name(gen.iter) == 'items'
     src = U(gen.iter.func.value) if src_ok else ''
     # source must be all results (self.event_results or an unfiltered copy of it)
-    plain_copies = {U(n.targets[0] if isinstance(n, ast.Assign) else n.target) for n in own_nodes(u.node) if isinstance(n, (ast.Assign, ast.AnnAssign)) and n.value is not None
+    plain_copies = {U(n.targets[0] if isinstance(n, ast.Assign) else n.target) for n in own_nodes(fn) if isinstance(n, (ast.Assign, ast.AnnAssign)) and n.value is not None
                     and ((isinstance(n.value, ast.Call) and U(n.value.func) == 'dict' and len(n.value.args) == 1 and U(n.value.args[0]).endswith('.event_results'))
                          or (isinstance(n.value, ast.Call) and U(n.value.func).endswith('.event_results.copy')))}
     full = src.endswith('.event_results') or src in plain_copies or (src in comps and not comps[src].generators[0].ifs and U(comps[src].generators[0].iter).endswith('.event_results.items()')
@@ -284,14 +299,14 @@ def c12_4(c: Ctx) -> None:
         c.ok(where(u, comp), f'{name} = {{k: r for k, r in <all results>.items() if include(r)}} (order preserved)')
     else:
         c.fail(u, f'{name} = {U(comp)[:90]}', 'the included set is not "all results, in order, filtered by include only"', node=comp)
-    none_ifs = [n for n in own_nodes(u.node) if isinstance(n, ast.If) and 'raise_if_none' in U(n.test)]
+    none_ifs = [n for n in own_nodes(fn) if isinstance(n, ast.If) and 'raise_if_none' in U(n.test)]
     good = len(none_ifs) == 1 and isinstance(none_ifs[0].test, ast.BoolOp) and isinstance(none_ifs[0].test.op, ast.And) and {U(v) for v in none_ifs[0].test.values} == {'raise_if_none', f'not {name}'} \
         and any(isinstance(s, ast.Raise) for s in none_ifs[0].body)
     if good:
         c.ok(where(u, none_ifs[0]), f'raises exactly when raise_if_none and not {name}')
     else:
         c.fail(u, f'raise_if_none test is {[U(n.test)[:60] for n in none_ifs]}', 'raise_if_none does not raise exactly when no result is included')
-    rets = [n for n in own_nodes(u.node) if isinstance(n, ast.Return) and n.value is not None]
+    rets = [n for n in own_nodes(fn) if isinstance(n, ast.Return) and n.value is not None]
     for r in rets:
         rv = U(r.value)
         chain_ok = rv == name or (rv in comps and not comps[rv].generators[0].ifs and U(comps[rv].generators[0].iter) == f'{name}.items()'
@@ -330,6 +345,80 @@ def c12_5(c: Ctx) -> None:
     for w in wr:
         if U(w.base) != u.params()[0]:
             c.fail(u, f'cache written on {U(w.base)} instead of the class being instantiated', 'the result type cache is shared between unrelated classes', node=w.node)
+
+
+def _isinstance_override(o, k=None):
+    return UNKNOWN
+
+
+@ob('C12.6', 'SHAPE', 'the default `include` filter of the accessors keeps exactly the documented results ("only non-None, non-exception results"): a completed result whose value '
+    'is falsy but not None (0, False, \'\', [], {}) is kept; None, exception values, errored / unfinished results and forwarded events are dropped')
+def c12_6(c: Ctx) -> None:
+    from sa.absint import AbsInt, Obj, Rec
+
+    filt = c.unit(MOD, 'BaseEvent.event_results_filtered')
+    # the default of the `include` parameter
+    a = filt.node.args
+    names = [x.arg for x in a.posonlyargs + a.args]
+    dflt = dict(zip(names[len(names) - len(a.defaults):], a.defaults)).get('include')
+    if not isinstance(dflt, ast.Name):
+        raise AnalysisError('event_results_filtered: the default of `include` is not a named function')
+    u = c.unit(MOD, f'BaseEvent.{dflt.id}')
+    p0 = u.params()[0]
+
+    class Exc:
+        pass
+
+    def isinst(o, k=None):
+        return UNKNOWN
+
+    cases = [
+        ('completed, result 0', Rec(status='completed', result=0, error=None), True),
+        ('completed, result False', Rec(status='completed', result=False, error=None), True),
+        ("completed, result ''", Rec(status='completed', result='', error=None), True),
+        ('completed, result []', Rec(status='completed', result=[], error=None), True),
+        ("completed, result 'value'", Rec(status='completed', result='value', error=None), True),
+        ('completed, result None', Rec(status='completed', result=None, error=None), False),
+        ('completed, result is an exception object', Rec(status='completed', result=Obj('ValueError', 'e'), error=None), False),
+        ('completed, result is a forwarded event', Rec(status='completed', result=Obj('BaseEvent', 'ev'), error=None), False),
+        ('error', Rec(status='error', result=None, error=Obj('ValueError', 'e')), False),
+        ('started', Rec(status='started', result=None, error=None), False),
+    ]
+    exc_like = {'ValueError': ('BaseException', 'Exception', 'ValueError'), 'BaseEvent': ('BaseEvent',)}
+
+    def isinstance_model(call_node):
+        return None
+
+    for desc, rec, want in cases:
+        def _isinstance(o, k=None, _node=None):
+            return UNKNOWN
+
+        ai = AbsInt(calls={'bool': lambda v: UNKNOWN if v is UNKNOWN else (True if isinstance(v, Obj) else bool(v))})
+        # isinstance over the abstract values: plain python values are instances of neither BaseException nor BaseEvent; Obj values by their class
+        orig_call = ai.call
+
+        def call(cn, env, orig_call=orig_call, ai=ai):
+            if isinstance(cn.func, ast.Name) and cn.func.id == 'isinstance' and len(cn.args) == 2:
+                v = ai.ev(cn.args[0], env)
+                ks = cn.args[1].elts if isinstance(cn.args[1], ast.Tuple) else [cn.args[1]]
+                kn = [U(k).split('.')[-1] for k in ks]
+                if v is UNKNOWN:
+                    return UNKNOWN
+                if isinstance(v, Obj):
+                    return any(k in exc_like.get(v.cls, (v.cls,)) for k in kn)
+                return False
+            return orig_call(cn, env)
+
+        ai.call = call  # type: ignore[method-assign]
+        ai.run(u.node.body, {p0: rec})
+        if ai.undecided or len(ai.returns) != 1 or ai.returns[0] is UNKNOWN:
+            raise AnalysisError(f'{u}: undecided for a result that is {desc}')
+        got = ai.truth(ai.returns[0])
+        if got == want:
+            c.ok(where(u), f'{desc} -> {"kept" if got else "dropped"}')
+        else:
+            c.fail(u, f'{desc} -> {"kept" if got else "dropped"}', f'the default include filter {"keeps" if got else "drops"} a result that is {desc}: the accessors '
+                   + ('return a value that is not a handler return value' if got else 'silently omit a recorded, conforming handler result (and raise_if_none may fire although a value was returned)'))
 
 
 OBLIGATIONS = ob.obs
